@@ -3,6 +3,8 @@
    leaf_model: interpreter of Gen_ncx.ncx_table) or of the extracted Coq SPEC (api_spec / leaf_spec).
    usage: c09_driver (model|spec) <cmdfile>
    output, one line per command:   <id> <status> <n> <kinds> <code_1> ... <code_n>
+   (N: <id> <wait rc> <k> { R <post rc> <status word> <n> <kinds> <codes> }*k C 0 ;
+    W/M: <id> <status> <pending> <close status> <n> <kinds> <codes>)
    kinds = string of n digits: 0 NOERR value, 1 ERANGE value(fill), 2 ERANGE nothing stored,
            3 undefined behaviour, 4 unrecognised function;  n = 0 prints kinds "-" .
    zarith is used only for decimal I/O of Coq's Z. *)
@@ -35,6 +37,29 @@ let print_result id (st, rs) =
   else List.iter (fun (k, _) -> Buffer.add_string b (string_of_int (iz k))) rs;
   List.iter (fun (_, c) -> Buffer.add_char b ' '; Buffer.add_string b (sz c)) rs;
   print_endline (Buffer.contents b)
+
+let elems_str rs =
+  let b = Buffer.create 256 in
+  let n = List.length rs in
+  Buffer.add_string b (string_of_int n); Buffer.add_char b ' ';
+  if n = 0 then Buffer.add_char b '-'
+  else List.iter (fun (k, _) -> Buffer.add_string b (string_of_int (iz k))) rs;
+  List.iter (fun (_, c) -> Buffer.add_char b ' '; Buffer.add_string b (sz c)) rs;
+  Buffer.contents b
+
+let rec take n l = if n = 0 then ([], l) else
+  match l with x :: r -> let (a, b) = take (n - 1) r in (x :: a, b) | [] -> ([], [])
+
+(* N id fmt wmode k p_0..p_{k-1} {kind vslot xi ii n c...}*k *)
+let parse_reqs k toks =
+  let rec go k toks acc =
+    if k = 0 then List.rev acc else
+    match toks with
+    | kind :: _vslot :: xi :: ii :: n :: rest ->
+        let (cs, rest') = take (int_of_string n) rest in
+        go (k - 1) rest' (((((kind <> "0"), zs xi), zs ii), List.map zs cs) :: acc)
+    | _ -> List.rev acc in
+  go k toks []
 
 let rec range lo hi acc = if hi < lo then acc else range lo (hi - 1) (zi hi :: acc)
 
@@ -81,6 +106,31 @@ let () =
                 print_result id
                   (if spec then leaf_spec (b put) (zs xi) (zs ii) (b hf) (zs fc) cs
                    else leaf_model (b put) (b pad) (zs xi) (zs ii) (b hf) (zs fc) cs)
+            | "N", fmt :: _wmode :: k :: rest ->
+                let k = int_of_string k in
+                let (_perm, rest) = take k rest in
+                let reqs = parse_reqs k rest in
+                let (rc, rs) = if spec then nb_spec (zs fmt) reqs else nb_model (zs fmt) reqs in
+                let b = Buffer.create 1024 in
+                Buffer.add_string b (Printf.sprintf "%s %s %d" id (sz rc) (List.length rs));
+                List.iter (fun ((post, st), el) ->
+                  Buffer.add_string b (Printf.sprintf " R %s %s %s" (sz post) (sz st) (elems_str el))) rs;
+                Buffer.add_string b " C 0";
+                print_endline (Buffer.contents b)
+            | "W", fmt :: coll :: xi :: ii :: _n :: cs ->
+                let cs = List.map zs cs in
+                let (((rc, pend), rcc), el) =
+                  if spec then varn_spec (zs fmt) (zs xi) (zs ii) cs
+                  else varn_model (coll = "0") (zs fmt) (zs xi) (zs ii) cs in
+                print_endline (Printf.sprintf "%s %s %s %s %s" id (sz rc) (sz pend) (sz rcc) (elems_str el))
+            | "M", fmt :: _coll :: xi :: ii :: nv :: n :: cs ->
+                let nv = int_of_string nv and n = int_of_string n in
+                let rec split i l = if i = 0 then [] else let (a, r) = take n l in a :: split (i - 1) r in
+                let vars = split nv (List.map zs cs) in
+                let (((rc, pend), rcc), el) =
+                  if spec then mput_spec (zs fmt) (zs xi) (zs ii) vars
+                  else mput_model (zs fmt) (zs xi) (zs ii) vars in
+                print_endline (Printf.sprintf "%s %s %s %s %s" id (sz rc) (sz pend) (sz rcc) (elems_str el))
             | _ -> print_endline (id ^ " ?"))
        | _ -> ()
      done
